@@ -456,3 +456,40 @@ def _derives_from(t, K):
             return False
         n += 1
     return False
+
+
+EXC_CLASSES = {
+    "C11": ["PerfectVisibility", "FullDirectionalVisibility"],
+    "C07": ["MissingTrieNode", "MissingTraversalNode"],
+    "C08": ["TraversedPartialPath", "MissingTraversalNode"],
+    "C03": ["BadTrieProof", "MissingTrieNode"],
+    "C12": ["NodeOverrideError"],
+    "C13": ["InvalidKeyError"],
+    "C16": ["InvalidNode", "InvalidNibbles"],
+    "C18": ["ValidationError"],
+    "C01": ["MissingTrieNode", "ValidationError"],
+}
+
+
+@rule("EXCH", sorted(EXC_CLASSES))
+def exch(ctx, pid):
+    """The exception classes a property names are distinct, unrelated classes deriving directly from Exception
+    (a handler for one never catches another; the exception-flow model relies on it)."""
+    m = ctx.P.modules.get("trie.exceptions")
+    if m is None:
+        raise AnalysisError("anchor vanished: trie.exceptions")
+    for name in EXC_CLASSES[pid]:
+        c = m.classes.get(name)
+        cst = "exception-class:%s" % name
+        if c is None:
+            ctx.bad(cst, "trie/exceptions.py", "exception class %s is gone" % name)
+        elif c.bases != ["Exception"]:
+            ctx.bad(cst, "trie/exceptions.py:%d" % c.node.lineno, "%s derives from %s instead of Exception: handlers written for its base would also catch it" % (name, ", ".join(c.bases) or "nothing"))
+        else:
+            ctx.ok(cst, "trie/exceptions.py:%d" % c.node.lineno, "%s(Exception)" % name, nontrivial=False)
+    pt = ctx.P.modules["trie.hexary"].classes.get("_PartialTraversal")
+    if pid in ("C07", "C08", "C01"):
+        if pt is None or pt.bases != ["Exception"]:
+            ctx.bad("exception-class:_PartialTraversal", "trie/hexary.py", "_PartialTraversal is not a direct Exception subclass")
+        else:
+            ctx.ok("exception-class:_PartialTraversal", "trie/hexary.py", "_PartialTraversal(Exception)", nontrivial=False)
